@@ -1,141 +1,271 @@
 import Sigc.SlotGLemmasStep
 /-!
   The exchange of a variable's representation (`exchangeRep`: the common tail of both assignment operators and of
-  `setS`) preserves `WF`, given the language rules `owned` and `xparent`.
+  `setS`) preserves `WF` — for every state: the variable refers to the new representation before the old one is
+  deleted, so whatever that deletion destroys (the parent of the old representation, the source of the assignment,
+  the variable itself) detaches from the representation it finds in the variable.
 -/
 namespace Sigc.SlotG
+
+/-- `~trackable` of representation `q` (notify the weak pointers), free it -/
+def eraseRep (q : Nat) (s : State) : State := (weakNotify q s).setRep q none
+
+theorem deleteRep_eq (q : Nat) (s : State) : deleteRep q s = eraseRep q (destroyRep (fuel s) q s) := rfl
+
+@[slotg_simp] theorem reps_eraseRep (q : Nat) (s : State) (x : Nat) :
+    (eraseRep q s).reps x = if x = q then none else s.reps x := by
+  unfold eraseRep; simp only [slotg_simp]; grind
+@[slotg_simp] theorem slots_eraseRep (q : Nat) (s : State) : (eraseRep q s).slots = s.slots := by
+  unfold eraseRep; simp only [slotg_simp]
+@[slotg_simp] theorem repOf_eraseRep (q : Nat) (s : State) (w : Nat) : repOf (eraseRep q s) w = repOf s w := by
+  simp only [repOf, slots_eraseRep]
+@[slotg_simp] theorem trks_eraseRep (q : Nat) (s : State) : (eraseRep q s).trks = s.trks := by
+  unfold eraseRep; simp only [slotg_simp]
+@[slotg_simp] theorem nextRep_eraseRep (q : Nat) (s : State) : (eraseRep q s).nextRep = s.nextRep := by
+  unfold eraseRep; simp only [slotg_simp]
+@[slotg_simp] theorem err_eraseRep (q : Nat) (s : State) : (eraseRep q s).err = s.err := by
+  unfold eraseRep; simp only [slotg_simp]
+theorem conns_eraseRep (q : Nat) (s : State) (Q : Rep) (hq : s.reps q = some Q) (c : Nat) :
+    (eraseRep q s).conns c = if c ∈ Q.cbs then (s.conns c).map (fun _ => none) else s.conns c := by
+  unfold eraseRep; simp only [slotg_simp]; exact conns_weakNotify q s Q hq c
+
+theorem orphan_eraseRep {s : State} (q r : Nat) : Orphan (eraseRep q s) r ↔ Orphan s r := by
+  unfold Orphan; simp only [repOf_eraseRep]
+
+/-- freeing a representation that is stored nowhere and has no functor any more -/
+theorem inv_eraseOrphan {s : State} (h : Inv s) {q : Nat} {Q : Rep} (ho : Orphan s q)
+    (hq : s.reps q = some Q) (hfn : Q.fn = none) : Inv (eraseRep q s) := by
+  have hc := conns_eraseRep q s Q hq
+  have hdisj : ∀ c, c ∈ Q.cbs → ∀ r R, s.reps r = some R → c ∈ R.cbs → r = q :=
+    fun c hc1 r R hR hc2 => h.regUniq r R q Q c hR hq hc2 hc1
+  refine { repAlive := ?_, repUniq := ?_, connReg := ?cr, cbsConn := ?cc, regUniq := ?_, cbsNodup := ?_,
+           parentOk := ?_, trkReg := ?_, trkEnt := ?_, trkNodup := ?_, refOk := ?_, ownOk := ?_, repBound := ?_ }
+  case cr =>
+    intro c w hcw
+    rw [hc c] at hcw
+    by_cases hm : c ∈ Q.cbs
+    · rw [if_pos hm] at hcw; cases hx : s.conns c <;> simp [hx] at hcw
+    · rw [if_neg hm] at hcw
+      obtain ⟨r, R, hR, hmR, hor⟩ := h.connReg c w hcw
+      have hrq : r ≠ q := fun he => by subst he; rw [hq] at hR; cases hR; exact hm hmR
+      exact ⟨r, R, by rw [reps_eraseRep, if_neg hrq]; exact hR, hmR,
+        by rw [repOf_eraseRep, orphan_eraseRep]; exact hor⟩
+  case cc =>
+    intro r R c hR hm
+    rw [reps_eraseRep] at hR
+    by_cases hrq : r = q
+    · simp [hrq] at hR
+    · rw [if_neg hrq] at hR
+      obtain ⟨w, hw, hor⟩ := h.cbsConn r R c hR hm
+      have hcn : c ∉ Q.cbs := fun hmq => hrq (hdisj c hmq r R hR hm)
+      exact ⟨w, by rw [hc c, if_neg hcn]; exact hw, by rw [repOf_eraseRep, orphan_eraseRep]; exact hor⟩
+  all_goals inv_clause h
 
 theorem exchangeRep_eq (d n : Nat) (s : State) : exchangeRep d n s =
     match repOf s d with
     | none => s.modSlot d fun D => { D with rep := some n }
     | some q =>
-      swapVar d q (some n)
-        (destroyRep (fuel (s.modRep n fun N => { N with parent := match s.reps q with
-            | some Q => Q.parent
-            | none => none }))
-          q (s.modRep n fun N => { N with parent := match s.reps q with
-            | some Q => Q.parent
-            | none => none })) := by
-  unfold exchangeRep
-  cases repOf s d <;> rfl
+      deleteRep q ((s.modRep n fun N => { N with parent := match s.reps q with
+          | some Q => Q.parent
+          | none => none }).modSlot d fun D => { D with rep := some n }) := rfl
 
-theorem inv_setParent_orphan {s : State} (h : Inv s) {n : Nat} (ho : ∀ w, repOf s w ≠ some n)
-    (par : Option Nat) : Inv (s.modRep n fun N => { N with parent := par }) := by
-  inv_auto h
-
+/-- storing an unstored, unregistered representation in a variable that has none -/
 theorem inv_adoptMod {s : State} (h : Inv s) {d n : Nat} {N : Rep} (hd : repOf s d = none)
-    (hn : s.reps n = some N) (hnp : N.parent = none) (ho : ∀ w, repOf s w ≠ some n) :
+    (hn : s.reps n = some N) (hnp : N.parent = none) (hnc : N.cbs = []) (ho : Orphan s n) :
     Inv (s.modSlot d fun D => { D with rep := some n }) := by
-  inv_auto h with [repOf_eq]
+  have hrep : ∀ w r, r ≠ n → (repOf (s.modSlot d fun D => { D with rep := some n }) w = some r ↔
+      repOf s w = some r) := by
+    intro w r hrn
+    rw [repOf_modSlot_rep]
+    by_cases hwd : w = d
+    · subst hwd; rw [hd]; simp only [if_true]; split <;> simp [Ne.symm hrn]
+    · rw [if_neg hwd]
+  have horp : ∀ r, r ≠ n → (Orphan (s.modSlot d fun D => { D with rep := some n }) r ↔ Orphan s r) := by
+    intro r hrn; unfold Orphan
+    constructor <;> (intro hh w hw; exact hh w (by first | exact (hrep w r hrn).mp hw | exact (hrep w r hrn).mpr hw))
+  have hnreg : ∀ r R c, s.reps r = some R → c ∈ R.cbs → r ≠ n := by
+    intro r R c hR hm he; subst he; rw [hn] at hR; cases hR; rw [hnc] at hm; simp at hm
+  refine { repAlive := ?_, repUniq := ?_, connReg := ?cr, cbsConn := ?cc, regUniq := ?_, cbsNodup := ?_,
+           parentOk := ?_, trkReg := ?_, trkEnt := ?_, trkNodup := ?_, refOk := ?_, ownOk := ?_, repBound := ?_ }
+  case cr =>
+    intro c w hcw
+    rw [conns_modSlot] at hcw
+    obtain ⟨r, R, hR, hm, hor⟩ := h.connReg c w hcw
+    have hrn := hnreg r R c hR hm
+    refine ⟨r, R, by rw [reps_modSlot]; exact hR, hm, ?_⟩
+    rw [hrep w r hrn, horp r hrn]; exact hor
+  case cc =>
+    intro r R c hR hm
+    rw [reps_modSlot] at hR
+    obtain ⟨w, hw, hor⟩ := h.cbsConn r R c hR hm
+    have hrn := hnreg r R c hR hm
+    exact ⟨w, by rw [conns_modSlot]; exact hw, by rw [hrep w r hrn, horp r hrn]; exact hor⟩
+  all_goals (unfold Orphan at ho; inv_clause h with [repOf_eq])
 
-/-- `s` is a state in which the new representation `n` is not yet stored anywhere; `hx`: the `owned` and
-    `xparent` rules for the variable `d` whose representation is exchanged -/
+/-- the first half of the exchange: the new representation inherits the parent of the old one and the variable
+    refers to the new one; the old one is now stored nowhere -/
+def switchRep (d n : Nat) (par : Option Nat) (s : State) : State :=
+  (s.modRep n fun N => { N with parent := par }).modSlot d fun D => { D with rep := some n }
+
+theorem inv_switchRep {s : State} (h : Inv s) {d n q : Nat} {N Q : Rep} (hq : repOf s d = some q)
+    (hQ : s.reps q = some Q) (hn : s.reps n = some N) (hnc : N.cbs = []) (ho : Orphan s n) :
+    Inv (switchRep d n Q.parent s) ∧ Orphan (switchRep d n Q.parent s) q ∧
+      repOf (switchRep d n Q.parent s) d = some n := by
+  have hne : n ≠ q := fun he => ho d (by rw [he]; exact hq)
+  have hdal : (s.slots d).isSome = true := by
+    obtain ⟨D, hD, -⟩ := repOf_eq.mp hq; simp [hD]
+  have hrepd : repOf (switchRep d n Q.parent s) d = some n := by
+    unfold switchRep; rw [repOf_modSlot_rep, if_pos rfl, slots_modRep, if_pos hdal]
+  have hrepo : ∀ w, w ≠ d → repOf (switchRep d n Q.parent s) w = repOf s w := by
+    intro w hwd; unfold switchRep; rw [repOf_modSlot_rep, if_neg hwd, repOf_modRep]
+  have horq : Orphan (switchRep d n Q.parent s) q := by
+    intro w hw
+    by_cases hwd : w = d
+    · subst hwd; rw [hrepd] at hw; cases hw; exact hne rfl
+    · rw [hrepo w hwd] at hw; exact hwd (h.repUniq w d q hw hq)
+  have horp : ∀ r, r ≠ n → Orphan s r → Orphan (switchRep d n Q.parent s) r := by
+    intro r hrn hor w hw
+    by_cases hwd : w = d
+    · subst hwd; rw [hrepd] at hw; cases hw; exact hrn rfl
+    · rw [hrepo w hwd] at hw; exact hor w hw
+  have hnreg : ∀ r R c, s.reps r = some R → c ∈ R.cbs → r ≠ n := by
+    intro r R c hR hm he; subst he; rw [hn] at hR; cases hR; rw [hnc] at hm; simp at hm
+  have hreps : ∀ r, r ≠ n → (switchRep d n Q.parent s).reps r = s.reps r := by
+    intro r hrn; unfold switchRep; rw [reps_modSlot, reps_modRep, if_neg hrn]
+  have hconns : (switchRep d n Q.parent s).conns = s.conns := by
+    unfold switchRep; rw [conns_modSlot, conns_modRep]
+  refine ⟨?_, horq, hrepd⟩
+  refine { repAlive := ?_, repUniq := ?_, connReg := ?cr, cbsConn := ?cc, regUniq := ?_, cbsNodup := ?_,
+           parentOk := ?po, trkReg := ?_, trkEnt := ?_, trkNodup := ?_, refOk := ?_, ownOk := ?_, repBound := ?_ }
+  case cr =>
+    intro c w hcw
+    rw [hconns] at hcw
+    obtain ⟨r, R, hR, hm, hor⟩ := h.connReg c w hcw
+    have hrn := hnreg r R c hR hm
+    refine ⟨r, R, by rw [hreps r hrn]; exact hR, hm, ?_⟩
+    rcases hor with hor | hor
+    · by_cases hwd : w = d
+      · subst hwd; rw [hq] at hor; cases hor; exact .inr horq
+      · exact .inl (by rw [hrepo w hwd]; exact hor)
+    · exact .inr (horp r hrn hor)
+  case cc =>
+    intro r R c hR hm
+    have hrn : r ≠ n := by
+      intro he; subst he
+      unfold switchRep at hR
+      rw [reps_modSlot, reps_modRep] at hR
+      simp only [if_true, hn, Option.map_some, Option.some.injEq] at hR
+      subst hR; simp only [hnc] at hm; simp at hm
+    rw [hreps r hrn] at hR
+    obtain ⟨w, hw, hor⟩ := h.cbsConn r R c hR hm
+    refine ⟨w, by rw [hconns]; exact hw, ?_⟩
+    rcases hor with hor | hor
+    · by_cases hwd : w = d
+      · subst hwd; rw [hq] at hor; cases hor; exact .inr horq
+      · exact .inl (by rw [hrepo w hwd]; exact hor)
+    · exact .inr (horp r hrn hor)
+  case po =>
+    intro r R p v hR hp hv
+    by_cases hvd : v = d
+    · subst hvd
+      rw [hrepd] at hv; cases hv
+      -- the new representation: its parent is the parent of the old one
+      unfold switchRep at hR
+      rw [reps_modSlot, reps_modRep] at hR
+      simp only [if_true, hn, Option.map_some, Option.some.injEq] at hR
+      subst hR
+      simp only at hp
+      obtain ⟨P, fid, hP, hPf⟩ := h.parentOk q Q p v hQ hp hq
+      by_cases hpn : p = n
+      · subst hpn
+        rw [hn] at hP; cases hP
+        refine ⟨{ N with parent := Q.parent }, fid, ?_, hPf⟩
+        unfold switchRep; rw [reps_modSlot, reps_modRep]; simp [hn]
+      · exact ⟨P, fid, by rw [hreps p hpn]; exact hP, hPf⟩
+    · rw [hrepo v hvd] at hv
+      have hrn : r ≠ n := fun he => ho v (by rw [← he]; exact hv)
+      rw [hreps r hrn] at hR
+      obtain ⟨P, fid, hP, hPf⟩ := h.parentOk r R p v hR hp hv
+      by_cases hpn : p = n
+      · subst hpn
+        rw [hn] at hP; cases hP
+        refine ⟨{ N with parent := Q.parent }, fid, ?_, hPf⟩
+        unfold switchRep; rw [reps_modSlot, reps_modRep]; simp [hn]
+      · exact ⟨P, fid, by rw [hreps p hpn]; exact hP, hPf⟩
+  all_goals (unfold Orphan at ho; unfold switchRep; inv_clause h with [repOf_eq])
+
+theorem exchangeRep_some {s : State} {d n q : Nat} {Q : Rep} (hq : repOf s d = some q)
+    (hQ : s.reps q = some Q) :
+    exchangeRep d n s = eraseRep q (destroyRep (fuel (switchRep d n Q.parent s)) q (switchRep d n Q.parent s)) := by
+  rw [exchangeRep_eq]; simp only [hq, hQ]; rfl
+
+/-- **the exchange keeps the state well-formed** — `s` is a state in which the new representation `n` exists but
+    is stored nowhere and carries no registration.  No side condition on what the old representation owns or
+    whose child it is. -/
 theorem wf_exchange {s : State} (hI : Inv s) (hidle : Idle s) {d n : Nat} {N : Rep}
     (hheld : ∀ r R, s.reps r = some R → (∃ w, repOf s w = some r) ∨ r = n)
-    (hn : s.reps n = some N) (hnp : N.parent = none) (horph : ∀ w, repOf s w ≠ some n)
+    (hn : s.reps n = some N) (hnp : N.parent = none) (hnc : N.cbs = []) (horph : Orphan s n)
     (hd : ∃ D, s.slots d = some D)
-    (hx : ∀ q Q, repOf s d = some q → s.reps q = some Q →
-      ((∃ fid h t, Q.fn = some (.own fid h t)) → ¬ Owned s d ∨ ∃ fid t, N.fn = some (.own fid d t)) ∧
-      (∀ p, Q.parent = some p → p = n ∨ (p ≠ q ∧ ¬ ∃ fid h t, Q.fn = some (.own fid h t))))
     (he : (exchangeRep d n s).err = false) : WF (exchangeRep d n s) := by
-  rw [exchangeRep_eq] at he ⊢
   cases hq : repOf s d with
   | none =>
-    simp only []
-    refine ⟨inv_adoptMod hI hq hn hnp horph, ?_, ?_⟩
+    rw [exchangeRep_eq]; simp only [hq]
+    refine ⟨inv_adoptMod hI hq hn hnp hnc horph, ?_, ?_⟩
     · unfold Idle at *; st_simp; exact hidle
     · obtain ⟨D, hD⟩ := hd
-      unfold Held; intro r R hR; st_simp
+      unfold Held; intro r R hR; rw [reps_modSlot] at hR
       rcases hheld r R hR with ⟨w, hw⟩ | rfl
-      · exact ⟨w, by grind [repOf_eq]⟩
-      · exact ⟨d, by simp [hD]⟩
+      · refine ⟨w, ?_⟩
+        rw [repOf_modSlot_rep]
+        by_cases hwd : w = d
+        · subst hwd; rw [hq] at hw; cases hw
+        · rw [if_neg hwd]; exact hw
+      · exact ⟨d, by rw [repOf_modSlot_rep]; simp [hD]⟩
   | some q =>
     obtain ⟨Q, hQ⟩ := hI.repAlive d q hq
-    obtain ⟨hx1, hx2⟩ := hx q Q hq hQ
-    have hne : n ≠ q := fun he => horph d (by rw [he]; exact hq)
-    simp only [hq, hQ] at he ⊢
-    rw [err_swapVar] at he
-    generalize hs1 : (s.modRep n fun N => { N with parent := Q.parent }) = s1 at he ⊢
-    have hI1 : Inv s1 := by rw [← hs1]; exact inv_setParent_orphan hI horph _
-    have hrep1 : ∀ w, repOf s1 w = repOf s w := by intro w; rw [← hs1, repOf_modRep]
-    have hq1 : repOf s1 d = some q := by rw [hrep1]; exact hq
-    have hQ1 : s1.reps q = some Q := by rw [← hs1, reps_modRep, if_neg (Ne.symm hne)]; exact hQ
-    have hN1 : s1.reps n = some { N with parent := Q.parent } := by rw [← hs1, reps_modRep]; simp [hn]
-    have horph1 : ∀ w, repOf s1 w ≠ some n := by intro w; rw [hrep1]; exact horph w
-    have hother1 : ∀ x, x ≠ n → s1.reps x = s.reps x := by
-      intro x hx; rw [← hs1, reps_modRep, if_neg hx]
-    obtain ⟨hC3, hrest⟩ := destroyRep_spec (fuel s1) q s1 hI1
+    rw [exchangeRep_some hq hQ] at he ⊢
+    rw [err_eraseRep] at he
+    obtain ⟨hI2, horq, hrepd⟩ := inv_switchRep hI hq hQ hn hnc horph
+    have hne : n ≠ q := fun h => horph d (by rw [h]; exact hq)
+    have hQ2 : (switchRep d n Q.parent s).reps q = some Q := by
+      unfold switchRep; rw [reps_modSlot, reps_modRep, if_neg (Ne.symm hne)]; exact hQ
+    have hrepo : ∀ w, w ≠ d → repOf (switchRep d n Q.parent s) w = repOf s w := by
+      intro w hwd; unfold switchRep; rw [repOf_modSlot_rep, if_neg hwd, repOf_modRep]
+    have halive2 : ∀ x X2, (switchRep d n Q.parent s).reps x = some X2 → ∃ X, s.reps x = some X := by
+      intro x X2 hx
+      unfold switchRep at hx; rw [reps_modSlot, reps_modRep] at hx
+      by_cases hxn : x = n
+      · subst hxn; exact ⟨N, hn⟩
+      · rw [if_neg hxn] at hx; exact ⟨X2, hx⟩
+    obtain ⟨hC3, hrest⟩ := destroyRep_spec (fuel (switchRep d n Q.parent s)) q _ hI2
     obtain ⟨hI3, hP3⟩ := hrest he
-    have hown1 : ∀ v, Owned s1 v → Owned s v := by
-      rintro v ⟨r, R, fid, t, hR, hf⟩
-      by_cases hrn : r = n
-      · subst hrn; rw [hN1] at hR; cases hR; exact ⟨r, N, fid, t, hn, hf⟩
-      · rw [hother1 r hrn] at hR; exact ⟨r, R, fid, t, hR, hf⟩
-    -- `d` still holds `q` after the old representation was destroyed
-    have hq3 : repOf (destroyRep (fuel s1) q s1) d = some q := by
-      by_cases hk : ∃ fid h t, Q.fn = some (.own fid h t)
-      · rcases hx1 hk with hno | ⟨fid, t, hNf⟩
-        · have hNO : ¬ Owned s1 d := fun h => hno (hown1 d h)
-          simp only [repOf, hC3.slotsKeep d hNO]; exact hq1
-        · simp only [repOf, destroyRep_ownedByOrphan (fuel s1) q s1 n d _ fid t hI1 horph1 hne hN1 hNf]
-          exact hq1
-      · have hnk : ∀ f, Q.fn = some f → f.owns = none := by
-          intro f hf
-          cases f with
-          | own fid h t => exact absurd ⟨fid, h, t, hf⟩ hk
-          | _ => rfl
-        simp only [repOf, destroyRep_slots_noOwn _ q s1 Q hQ1 hnk]; exact hq1
-    obtain ⟨Q3, hQ3⟩ := hI3.repAlive d q hq3
-    have hN3 : (destroyRep (fuel s1) q s1).reps n = some { N with parent := Q.parent } := by
-      rw [destroyRep_orphan _ q s1 n horph1 hne]; exact hN1
-    have horph3 : ∀ w, repOf (destroyRep (fuel s1) q s1) w ≠ some n := by
+    obtain ⟨Q3, hQ3⟩ := hC3.orphanKeep q Q hQ2 horq
+    have horq3 : Orphan (destroyRep (fuel (switchRep d n Q.parent s)) q (switchRep d n Q.parent s)) q := by
       intro w hw
       rw [repOf_eq] at hw
       obtain ⟨V, hV, hVr⟩ := hw
-      exact horph1 w (repOf_eq.mpr ⟨V, hC3.slots w V hV, hVr⟩)
-    refine ⟨inv_swapVar hI3 (some n) hq3 hQ3 (hP3 Q3 hQ3) ?_, ?_, ?_⟩
-    · intro n' hn'; cases hn'
-      refine ⟨hne, horph3, _, hN3, ?_⟩
-      intro p hp
-      simp only at hp
-      obtain ⟨P, fid, hP, hPf⟩ := hI.parentOk q Q p d hQ hp hq
-      rcases hx2 p hp with rfl | ⟨hpq, hk⟩
-      · refine ⟨hne, _, fid, hN3, ?_⟩
-        rw [hn] at hP; cases hP; exact hPf
-      · refine ⟨hpq, ?_⟩
-        by_cases hpn : p = n
-        · subst hpn; rw [hn] at hP; cases hP; exact ⟨_, fid, hN3, hPf⟩
-        · have hP1 : s1.reps p = some P := by rw [hother1 p hpn]; exact hP
-          have hnk : ∀ f, Q.fn = some f → f.owns = none := by
-            intro f hf
-            cases f with
-            | own fid h t => exact absurd ⟨fid, h, t, hf⟩ hk
-            | _ => rfl
-          have hfu : fuel s1 = (s1.nextRep + 1) + 1 := rfl
-          rw [hfu, destroyRep_noOwn _ q s1 Q hQ1 hnk]
-          cases hfq : Q.fn with
-          | none => exact ⟨P, fid, by simp [reps_setRep, hpq, hP1], hPf⟩
-          | some f =>
-            simp only []
-            rcases reps_dropFn_other q Q f s1 p hpq with h | ⟨v, X, -, -, hX, h⟩
-            · exact ⟨P, fid, by rw [h]; exact hP1, hPf⟩
-            · rw [hP1] at hX; cases hX
-              refine ⟨clearPar q P, fid, h, ?_⟩
-              unfold clearPar; split <;> exact hPf
-    · have hidle1 : Idle s1 := by
-        rw [← hs1]; unfold Idle at *; st_simp; exact hidle
-      exact idle_swapVar (idle_casc hC3 hidle1) d q (some n)
-    · refine held_swapVar hI3 ?_ hq3
-      intro r R3 hR3
-      by_cases hrn : r = n
-      · right; rw [hrn]
-      · left
-        obtain ⟨R1, hR1, -⟩ := hC3.reps r R3 hR3
-        rw [hother1 r hrn] at hR1
-        rcases hheld r R1 hR1 with ⟨w, hw⟩ | h
-        · rcases hC3.killed w r (by rw [hrep1]; exact hw) with hk | ⟨-, hk⟩
-          · exact ⟨w, hk⟩
-          · rw [hk] at hR3; cases hR3
-        · exact absurd h hrn
+      exact horq w (repOf_eq.mpr ⟨V, hC3.slots w V hV, hVr⟩)
+    refine ⟨inv_eraseOrphan hI3 horq3 hQ3 (hP3 Q3 hQ3), ?_, ?_⟩
+    · have hidle2 : Idle (switchRep d n Q.parent s) := by
+        unfold switchRep Idle at *; st_simp; exact hidle
+      have := idle_casc hC3 hidle2
+      unfold Idle at *; st_simp; exact this
+    · intro x X hX
+      rw [reps_eraseRep] at hX
+      by_cases hxq : x = q
+      · simp [hxq] at hX
+      · rw [if_neg hxq] at hX
+        obtain ⟨X2, hX2, -⟩ := hC3.reps x X hX
+        obtain ⟨X0, hX0⟩ := halive2 x X2 hX2
+        have hheld2 : ∃ w2, repOf (switchRep d n Q.parent s) w2 = some x := by
+          rcases hheld x X0 hX0 with ⟨w, hw⟩ | hxn
+          · by_cases hwd : w = d
+            · subst hwd; rw [hq] at hw; cases hw; exact absurd rfl hxq
+            · exact ⟨w, by rw [hrepo w hwd]; exact hw⟩
+          · subst hxn; exact ⟨d, hrepd⟩
+        obtain ⟨w2, hw2⟩ := hheld2
+        rcases hC3.killed w2 x hw2 with hk | ⟨-, hk⟩
+        · exact ⟨w2, by rw [repOf_eraseRep]; exact hk⟩
+        · rw [hk] at hX; cases hX
 
 end Sigc.SlotG
